@@ -12,6 +12,7 @@ import hashlib
 import importlib
 import json
 import os
+import re
 import sys
 import time
 import traceback
@@ -133,6 +134,7 @@ class Ctx:
         known = load_known_findings()
         listed = {}
         prefixes = []
+        regexes = []
         for f in known.get("findings", []):
             if f.get("property") != self.prop:
                 continue
@@ -140,12 +142,19 @@ class Ctx:
                 listed[k] = f
             for k in f.get("key_prefixes", []):  # one prefix = one specific failing input (case + sub-point)
                 prefixes.append((k, f))
+            for k in f.get("key_regex", []):  # an input REGION + a signature computed by the check (see the finding's text)
+                regexes.append((re.compile(k), f))
         new, old = [], {}
         for v in self.violations:
             f = listed.get(v["key"])
             if f is None:
                 for k, pf in prefixes:
                     if v["key"].startswith(k):
+                        f = pf
+                        break
+            if f is None:
+                for rx, pf in regexes:
+                    if rx.search(v["key"]):
                         f = pf
                         break
             if f is None:
